@@ -510,6 +510,28 @@ MUTANTS = [
            lambda f, t: delete_stmt(f, lambda s: isinstance(s, ast.If) and "isinstance(v" in u(s.test))),
     Mutant("C16", "instances-get-no-auto-proxy-hook", "C16-R5", S, "Daemon.register",
            lambda f, t: replace_stmt(f, lambda s: isinstance(s, ast.Expr) and "register_type_replacement(type(" in u(s), [ast.Pass()])),
+    Mutant("C13", "connection-close-does-not-close-the-socket", "C13-R5", SU, "SocketConnection.close",
+           lambda f, t: delete_stmt(f, lambda s: u(s) == "self.sock.close()")),
+    Mutant("C02", "property-named-call-falls-through-to-the-object", "C02-R2", S, "_get_attribute",
+           lambda f, t: delete_stmt(f, lambda s: isinstance(s, ast.Raise) and "unexposed attribute" in u(s), count=1)),
+    Mutant("C02", "property-gate-falls-off-its-end", "C02-R2", S, "_get_exposed_property_value",
+           lambda f, t: delete_stmt(f, lambda s: isinstance(s, ast.Raise) and "unexposed or unknown" in u(s))),
+    Mutant("C02", "class-expose-marks-private-members", "C02-R5", S, "expose",
+           lambda f, t: set_test(f, lambda e: u(e) == "is_private_attribute(name)", "False")),
+    Mutant("C18", "finished-worker-stays-busy", "C18-R4", ST, "Pool.notify_done",
+           lambda f, t: delete_stmt(f, lambda s: u(s) == "self.busy.remove(worker)")),
+    Mutant("C18", "finished-worker-neither-idle-nor-retired", "C18-R4", ST, "Pool.notify_done",
+           lambda f, t: delete_stmt(f, lambda s: u(s) == "self.idle.add(worker)")),
+    Mutant("C18", "idle-workers-kept-without-minimum-test", "C18-R4", ST, "Pool.notify_done",
+           lambda f, t: set_test(f, lambda e: u(e) == "len(self.idle) >= config.THREADPOOL_SIZE_MIN", "False")),
+    Mutant("C18", "chosen-worker-not-counted-busy", "C18-R3", ST, "Pool.process",
+           lambda f, t: delete_stmt(f, lambda s: u(s) == "self.busy.add(worker)")),
+    Mutant("C18", "new-worker-not-started", "C18-R3", ST, "Pool.process",
+           lambda f, t: delete_stmt(f, lambda s: u(s) == "worker.start()")),
+    Mutant("C18", "idle-workers-never-reused", "C18-R3", ST, "Pool.process",
+           lambda f, t: set_test(f, lambda e: u(e) == "self.idle", "False")),
+    Mutant("C18", "worker-event-not-cleared", "C18-R4", ST, "Worker.run",
+           lambda f, t: delete_stmt(f, lambda s: u(s) == "self.job_available.clear()")),
     Mutant("C01", "marshal-call-envelope-swapped", "C01-R7", SER, "MarshalSerializer.dumpsCall",
            lambda f, t: replace_expr(f, lambda e: u(e) == "(obj, method, vargs, kwargs)", "(obj, method, kwargs, vargs)")),
     Mutant("C01", "json-call-envelope-key-mismatch", "C01-R7", SER, "JsonSerializer.loadsCall",
